@@ -1139,6 +1139,17 @@ class TermBuilder:
         if t[0] != "call":
             return t
         callee, recv = self.resolve_callee(t[1])
+        if callee is not None and t[3] and not isinstance(callee.node, ast.Lambda) and not any(a[0] == "star" for a in t[2]) and not any(k == "**" for k, _ in t[3]):
+            # a call of a package function: keywords that name positional formals are put at their positions (f(a, y=b) is f(a, b))
+            formals = list(callee.positional_params)
+            if formals and formals[0] == "self" and callee.cls is not None and not callee.is_static and t[1][0] == "attr":
+                formals = formals[1:]
+            kw = dict(t[3])
+            args = list(t[2])
+            while len(args) < len(formals) and formals[len(args)] in kw:
+                args.append(kw.pop(formals[len(args)]))
+            if len(args) != len(t[2]) and not any(f in kw for f in formals[:len(args)]):
+                t = ("call", t[1], tuple(args), tuple(sorted(kw.items(), key=lambda kv: kv[0])))
         if not self.inline and not (callee is not None and _free_helper(callee)):
             # a non-inlining builder still looks through small private helpers that no rule names (see vstat/inliner.py)
             return t
